@@ -320,7 +320,7 @@ func (g *G) msg(kind string, v *view, aware bool, who int, depth int) script.Msg
 		if !aware && g.chance(30) {
 			otok = g.badAddr()
 		}
-		return M(kind, g.strNonEmpty(aware, 64), g.str(aware, 128), g.str(aware, 66), g.pick("geth", "tendermint", "cosmos", "-", g.str(aware, 10)), otok)
+		return M(kind, g.moniker(aware), g.str(aware, 128), g.str(aware, 66), g.pick("geth", "tendermint", "cosmos", "-", g.str(aware, 10)), otok)
 
 	case "bcn.reg":
 		o := g.payer(v, who)
@@ -328,7 +328,7 @@ func (g *G) msg(kind string, v *view, aware bool, who int, depth int) script.Msg
 		if !aware && g.chance(30) {
 			otok = g.badAddr()
 		}
-		return M(kind, g.strNonEmpty(aware, 64), g.strNonEmpty(aware, 128), otok)
+		return M(kind, g.moniker(aware), g.strNonEmpty(aware, 128), otok)
 
 	case "wrk.rec", "bcn.rec", "wrk.buy", "bcn.buy":
 		rv := &v.wrk
@@ -665,6 +665,14 @@ func (g *G) strNonEmpty(aware bool, limit int) string {
 			return s
 		}
 	}
+}
+
+// moniker: monikers are not unique — now and then one of a small pool, so that several owners share one
+func (g *G) moniker(aware bool) string {
+	if g.chance(20) {
+		return g.pick("alpha", "beta", "gamma")
+	}
+	return g.strNonEmpty(aware, 64)
 }
 
 func (g *G) hasStream(v *view, r, s int) bool {
